@@ -206,6 +206,10 @@ def check_graph_log(br, g, tip, case):
         check(set(got) <= gm.ancestry(g, r) and r in got,
               "C25/dotted-end-not-within-its-ancestry",
               [tip, r, sorted(set(got) - gm.ancestry(g, r))])
+        # "-r ..X" denotes everything up to X: the whole ancestry of X
+        check(set(got) == gm.ancestry(g, r),
+              "C25/dotted-end-range-omits-revisions",
+              [tip, r, sorted(gm.ancestry(g, r) - set(got))])
     if merges and (case["ranges"] or case["limits"]):
         return "merge+range" if nt else "merge+limit"
     return None
